@@ -189,6 +189,19 @@ class World:
         b = await self.broker(client)
         q = op["q"]
         await self.declare(q, client)
+        if op.get("again") is not None:
+            # the producer enqueues an id again that is still waiting (a "unique job" enqueued twice - the stored message is kept):
+            # for the order of delivery that changes nothing, the message keeps the place its first enqueue gave it
+            waiting = [m_ for m_ in self.msgs.values() if m_.queue == q and m_.holder is None and not m_.acked and not m_.dead and not m_.unknown
+                       and not m_.handovers]
+            if not waiting:
+                ev["skipped"] = True
+                return
+            m_ = sorted(waiting, key=lambda x: x.seq0)[op["again"] % len(waiting)]
+            key = RoutingKey(topic=m_.topic, queue=q, priority=m_.prio, id_=m_.id)
+            await b.enqueue(key, m_.payload, m_.params)
+            ev["again"] = m_.id
+            return
         self.seq += 1
         id_ = op.get("id") or names.auto_id(self.case.get("names"), self.seq)
         if id_ in self.msgs:
